@@ -175,9 +175,9 @@ def config_lines(o: Opts, cfgd_name: str | None) -> list[str]:
 
 
 def class_source(name: str, fields: list, o: Opts | None, extra_lines: list[str] | None = None,
-                 cfgd_name: str = "CfgD") -> str:
-    """o = None: the option-free twin."""
-    src = f"@dataclass(kw_only=True)\nclass {name}(DataClassDictMixin):\n"
+                 cfgd_name: str = "CfgD", mixin: bool = True) -> str:
+    """o = None: the option-free twin.  mixin=False: a plain dataclass (compiled by whichever class meets it first)."""
+    src = f"@dataclass(kw_only=True)\nclass {name}" + ("(DataClassDictMixin)" if mixin else "") + ":\n"
     lines = [field_line(f, o is None) if isinstance(f, FieldSpec) else f for f in fields] + (extra_lines or [])
     src += ("\n".join(lines) if lines else "    pass") + "\n"
     if o is not None:
@@ -633,17 +633,21 @@ class DcField:
     optional: bool
     alias: str | None
     omit: bool
+    many: bool = False        # List[<class>] with default_factory=list
 
     def ty(self, prefix: str) -> str:
         t = prefix + str(self.members[0]) if len(self.members) == 1 else \
             "Union[" + ", ".join(prefix + str(m) for m in self.members) + "]"
+        if self.many:
+            return f"List[{t}]"
         return f"Optional[{t}]" if self.optional else t
 
 
 @dataclass(frozen=True)
 class NCls:
-    o: Opts                   # class-level part only (cfgd, cfg, sort, flags)
+    o: Opts                   # class-level part only (cfgd, cfg, sort, flags, lazy)
     fields: tuple             # of FieldSpec | DcField
+    mixin: bool = True        # False: plain @dataclass (with a Config of its own iff o sets anything)
 
 
 LEAF_NESTED = [("optint", "val", "None"), ("int", "val", "1"), ("date", "no", None), ("optdate", "val", "None"),
@@ -651,11 +655,20 @@ LEAF_NESTED = [("optint", "val", "None"), ("int", "val", "1"), ("date", "no", No
 
 
 def gen_table(rng) -> list[NCls]:
-    n = rng.randint(2, 4)
+    """class 0 is a mixin root; the others are mixin subclasses, plain dataclasses with a Config, or plain
+    dataclasses without any Config; class i only refers to classes j > i"""
+    n = rng.randint(2, 5)
     table: list[NCls] = [None] * n
     for cid in range(n - 1, -1, -1):
-        fon, fba, fdl, fcx = (rng.random() < 0.5 for _ in range(4))
-        o = Opts(cfgd=gen_ns(rng, 0.6), cfg=gen_ns(rng, 0.0), sort=rng.random() < 0.3, fon=fon, fba=fba, fdl=fdl, fcx=fcx)
+        r = rng.random()
+        mixin = cid == 0 or r < 0.45
+        bare = (not mixin) and r > 0.7                    # plain dataclass, no Config at all
+        if bare:
+            o = Opts()
+        else:
+            fon, fba, fdl, fcx = (rng.random() < 0.5 for _ in range(4))
+            o = Opts(cfgd=gen_ns(rng, 0.45), cfg=gen_ns(rng, 0.3) or ("U", "U", "U"), sort=rng.random() < 0.3,
+                     fon=fon, fba=fba, fdl=fdl, fcx=fcx, lazy=mixin and rng.random() < 0.2)
         names = rng.sample(NAMES, rng.randint(1, 4))
         aliases = rng.sample(ALIASES, len(ALIASES))
         fields = []
@@ -663,23 +676,75 @@ def gen_table(rng) -> list[NCls]:
         for i, nm in enumerate(names):
             al = aliases[i] if rng.random() < 0.4 else None
             if later and (rng.random() < 0.55 or (cid == 0 and i == 0)):
-                if len(later) >= 2 and rng.random() < 0.4:
+                k = rng.random()
+                if len(later) >= 2 and k < 0.3:
                     mem = tuple(rng.sample(later, rng.randint(2, min(3, len(later)))))
                     fields.append(DcField(nm, mem, False, al, False))
+                elif k < 0.5:
+                    fields.append(DcField(nm, (rng.choice(later),), False, al, rng.random() < 0.05, many=True))
                 else:
                     fields.append(DcField(nm, (rng.choice(later),), rng.random() < 0.4, al, rng.random() < 0.05))
             else:
                 sh, dk, ds = rng.choice(LEAF_NESTED)
                 fields.append(FieldSpec(nm, sh, dk, ds, al, rng.random() < 0.08))
-        table[cid] = NCls(o, tuple(fields))
+        table[cid] = NCls(o, tuple(fields), mixin)
     return table
+
+
+def refs(c: NCls) -> set:
+    return {m for f in c.fields if isinstance(f, DcField) for m in f.members}
+
+
+def reachable(table, cid: int) -> set:
+    seen, todo = set(), [cid]
+    while todo:
+        c = todo.pop()
+        if c not in seen:
+            seen.add(c)
+            todo.extend(refs(table[c]))
+    return seen
+
+
+def lazy_dialect_plain_zone(table, rid: int, rcall) -> bool:
+    """signature of known finding lazy-dialect-uncompiled-plain-nested: the call passes a dialect and reaches a
+    mixin class with lazy_compilation and ADD_DIALECT_SUPPORT that owns (directly or through plain classes) a
+    plain dataclass: that class may meet its first builder with dialect=D"""
+    if rcall is None:
+        return False
+    for m in reachable(table, rid):
+        c = table[m]
+        if c.mixin and c.o.lazy and c.o.fdl:
+            todo, seen = list(refs(c)), set()
+            while todo:
+                k = todo.pop()
+                if k in seen:
+                    continue
+                seen.add(k)
+                if not table[k].mixin:
+                    return True
+    return False
+
+
+def definition_order(rng, table) -> list[int]:
+    """a random order in which every class is defined after the classes it refers to: which owner
+    compiles a shared plain nested class first depends on it"""
+    done: list[int] = []
+    todo = set(range(len(table)))
+    while todo:
+        ready = sorted(c for c in todo if refs(table[c]) <= set(done))
+        pick = rng.choice(ready)
+        done.append(pick)
+        todo.discard(pick)
+    return done
 
 
 def nfield_line(f, plain: bool) -> str:
     if isinstance(f, FieldSpec):
         return field_line(f, plain)
     args = []
-    if f.optional:
+    if f.many:
+        args.append("default_factory=list")
+    elif f.optional:
         args.append("default=None")
     md = {}
     if f.alias is not None:
@@ -692,26 +757,30 @@ def nfield_line(f, plain: bool) -> str:
     return f"    {f.name}: {ty}" + (f" = field({', '.join(args)})" if args else "")
 
 
-def table_source(table: list[NCls], call) -> str:
+def table_source(table: list[NCls], call, order: list[int]) -> str:
     src = HEADER
     if call is not None:
         src += dialect_source("CallD", call)
-    for cid in range(len(table) - 1, -1, -1):
+    for cid in order:
         c = table[cid]
         if c.o.cfgd is not None:
             src += dialect_source(f"CfgD{cid}", c.o.cfgd)
-        src += class_source(f"C{cid}", [nfield_line(f, False) for f in c.fields], c.o, cfgd_name=f"CfgD{cid}")
-        src += class_source(f"P{cid}", [nfield_line(f, True) for f in c.fields], None)
+        src += class_source(f"C{cid}", [nfield_line(f, False) for f in c.fields], c.o, cfgd_name=f"CfgD{cid}", mixin=c.mixin)
+    for cid in order:
+        c = table[cid]
+        src += class_source(f"P{cid}", [nfield_line(f, True) for f in c.fields], None, mixin=c.mixin)
     return src
 
 
 def gen_tree(rng, table, cid: int):
-    """(cid, [child]) where child = python source of a leaf value | None | (cid, [...])"""
+    """(cid, [child]) where child = python source of a leaf value | None | (cid, [...]) | [ (cid, [...]), ... ]"""
     ch = []
     for f in table[cid].fields:
         if isinstance(f, FieldSpec):
             cands = [v for v in f.sh.values if v != "None" or f.nullable]
             ch.append("None" if (f.nullable and rng.random() < 0.5) else rng.choice(cands))
+        elif f.many:
+            ch.append([gen_tree(rng, table, f.members[0]) for _ in range(rng.choice([0, 1, 1, 2]))])
         elif f.optional and rng.random() < 0.3:
             ch.append("None")
         else:
@@ -723,7 +792,13 @@ def tree_src(table, t, prefix: str) -> str:
     cid, ch = t
     parts = []
     for f, x in zip(table[cid].fields, ch):
-        parts.append(f"{f.name}=" + (x if isinstance(x, str) else tree_src(table, x, prefix)))
+        if isinstance(x, str):
+            v = x
+        elif isinstance(x, list):
+            v = "[" + ", ".join(tree_src(table, y, prefix) for y in x) + "]"
+        else:
+            v = tree_src(table, x, prefix)
+        parts.append(f"{f.name}={v}")
     return f"{prefix}{cid}(" + ", ".join(parts) + ")"
 
 
@@ -767,11 +842,16 @@ def walk(table, ns, t, inst, plain, members, outer, avail, mode: str, hits: dict
                 defaults[f.name] = eval(f.dsrc, ns)
             elif f.dkind == "fac":
                 defaults[f.name] = eval(f.dsrc, ns)()
+        elif f.many:
+            defaults[f.name] = []
         elif f.optional:
             defaults[f.name] = None
     sub = {}
     for f, x in zip(fields, ch):
-        if isinstance(f, DcField) and not isinstance(x, str):
+        if isinstance(x, list):
+            sub[f.name] = [walk(table, ns, y, iy, py, f.members, cls_flags(c), avail2, mode, hits)
+                           for y, iy, py in zip(x, getattr(inst, f.name), plain[f.name])]
+        elif isinstance(f, DcField) and not isinstance(x, str):
             sub[f.name] = walk(table, ns, x, getattr(inst, f.name), plain[f.name], f.members, cls_flags(c), avail2, mode, hits)
     return project(e, fields, defaults, inst, plain, sub)
 
@@ -780,21 +860,21 @@ def walk(table, ns, t, inst, plain, members, outer, avail, mode: str, hits: dict
 
 NESTED_DEFS = COQ_DEFS.split("Definition case_ok")[0] + """
 Definition G a b c d := {| g_on := a; g_ba := b; g_dl := c; g_cx := d |}.
-Definition C cfgd cfg srt fl fs := {| c_cfgd := cfgd; c_cfg := cfg; c_sort := srt; c_flags := fl; c_fields := fs |}.
+Definition C mx cfgd cfg srt fl fs := {| c_mixin := mx; c_cfgd := cfgd; c_cfg := cfg; c_sort := srt; c_flags := fl; c_fields := fs |}.
 Definition K a b c := {| kw_on := a; kw_ba := b; kw_dl := c |}.
-Definition ncase_ok (c: list cls * node * kwv * option pv * bool) : bool :=
-  match c with (ct, n, k, expected, py_in_domain) =>
-    match to_dict_h ct false n 0 k, expected with
+Definition ncase_ok (c: list cls * (nat * node) * kwv * option pv * bool) : bool :=
+  match c with (ct, (root, n), k, expected, py_in_domain) =>
+    match to_dict_h ct false n root k, expected with
     | Some a, Some b => pv_eqb a b
     | None, None => true
     | _, _ => false end
-    && Bool.eqb (ok_h ct n [0%nat] root_flags k) py_in_domain end.
+    && Bool.eqb (ok_h ct n [root] root_flags k None) py_in_domain end.
 """
 
 
 def coq_dcfield(f: DcField) -> str:
     al = "None" if f.alias is None else f"(Some {coq_str(f.alias)})"
-    d = "(DVal PNone)" if f.optional else "DNo"
+    d = "(DFac (POpq 1))" if f.many else ("(DVal PNone)" if f.optional else "DNo")   # [] is POpq (1 + 0)
     return f"(P {coq_str(f.name)} {al} {coq_bool(f.optional)} false {d} {coq_bool(f.omit)})"
 
 
@@ -809,7 +889,7 @@ def coq_table(table, ns, enc) -> str:
             else:
                 fs.append(f"({coq_dcfield(f)}, [" + "; ".join(f"{m}%nat" for m in f.members) + "])")
         o = c.o
-        out.append(f"(C {coq_ns(o.cfgd)} (N {o.cfg[0]} {o.cfg[1]} {o.cfg[2]}) {coq_bool(o.sort)} "
+        out.append(f"(C {coq_bool(c.mixin)} {coq_ns(o.cfgd)} (N {o.cfg[0]} {o.cfg[1]} {o.cfg[2]}) {coq_bool(o.sort)} "
                    f"(G {coq_bool(o.fon)} {coq_bool(o.fba)} {coq_bool(o.fdl)} {coq_bool(o.fcx)}) {coq_list(fs)})")
     return coq_list(out)
 
@@ -820,12 +900,17 @@ def coq_node(table, t, inst, plain, enc) -> str:
     for f, x in zip(table[cid].fields, ch):
         if isinstance(x, str):
             parts.append(f"(NLeaf {enc(getattr(inst, f.name))} {enc(plain[f.name])})")
+        elif isinstance(x, list):
+            parts.append("(NList " + coq_list(coq_node(table, y, iy, py, enc)
+                                              for y, iy, py in zip(x, getattr(inst, f.name), plain[f.name])) + ")")
         else:
             parts.append(coq_node(table, x, getattr(inst, f.name), plain[f.name], enc))
     return f"(NObj {cid} {coq_list(parts)})"
 
 
 def coq_tree_value(v, enc) -> str:
+    if isinstance(v, list):          # nested tables have no list-typed leaf shapes: every list is a List[<dataclass>] field
+        return "(PList " + coq_list(coq_tree_value(x, enc) for x in v) + ")"
     if isinstance(v, dict):
         return "(PDict " + coq_list(f"({coq_str(k)}, {coq_tree_value(x, enc)})" for k, x in v.items()) + ")"
     return enc(v)
@@ -833,62 +918,82 @@ def coq_tree_value(v, enc) -> str:
 
 def run_nested(ctx: vlib.Ctx, ncases: list[str], ninfo: list):
     rng = ctx.rng
+    all_flags = (True, True, True, True)
     for _ in range(ctx.budget(150, 1500)):
         table = gen_table(rng)
-        root = table[0]
-        call = gen_ns(rng, 0.2) if (root.o.fdl and rng.random() < 0.35) else None
-        src = table_source(table, call)
+        order = definition_order(rng, table)
+        roots = [cid for cid in range(len(table)) if table[cid].mixin]
+        rng.shuffle(roots)                       # call order: lazily compiled owners meet shared classes in this order
+        call = gen_ns(rng, 0.2) if (any(table[r].o.fdl for r in roots) and rng.random() < 0.4) else None
+        src = table_source(table, call, order)
         ns = load(src)
-        for _ in range(3):
-            kon = rng.choice([None, True, False]) if root.o.fon else None
-            kba = rng.choice([None, True, False]) if root.o.fba else None
-            ro = replace(root.o, kon=kon, kba=kba, call=call)
-            t = gen_tree(rng, table, 0)
-            inst = eval(tree_src(table, t, "C"), ns)
-            twin = eval(tree_src(table, t, "P"), ns)
-            try:
-                plain = twin.to_dict()
-            except Exception as ex:
-                ctx.fail(f"nested: the option-free twin raised {type(ex).__name__}: {ex}"[:300],
-                         {"kind_of_case": "nested", "source": src, "cls": "C0", "twin": "P0", "instance": tree_src(table, t, "C"),
-                          "twin_instance": tree_src(table, t, "P"), "entry": "to_dict", "kwargs": "", "default_dialect": None,
-                          "expected": "a mapping"}, {"kind": "plain-raised-" + type(ex).__name__, "entry": "nested"})
-                continue
-            hits: dict = {}
-            all_flags = (True, True, True, True)
-            avail = (kon, kba, call)
-            expected = walk(table, ns, t, inst, plain, (0,), all_flags, avail, "spec", hits)
-            ctx.count(("nested", repr(table), repr(t), kon, kba, call))
-            ctx.hist("entry", "nested")
-            ctx.hist("nested_depth_classes", str(len(table)))
-            rep = {"kind_of_case": "nested", "source": src, "cls": "C0", "twin": "P0", "instance": tree_src(table, t, "C"),
-                   "twin_instance": tree_src(table, t, "P"), "entry": "to_dict", "kwargs": kwargs_src(ro),
-                   "default_dialect": None, "expected": repr(expected), "plain": repr(plain)}
-            try:
-                observed = inst.to_dict(**call_kwargs(ro, ns))
-            except Exception as ex:
-                rep["observed"] = f"{type(ex).__name__}: {ex}"
-                ctx.fail(f"nested to_dict({kwargs_src(ro)}) raised {type(ex).__name__}: {ex}"[:300], rep,
-                         {"kind": "raised-" + type(ex).__name__, "entry": "nested"})
-                continue
-            rep["observed"] = repr(observed)
-            enc = PvEnc()
-            in_domain = not hits
-            ncases.append(f"({coq_table(table, ns, enc)}, {coq_node(table, t, inst, plain, enc)}, "
-                          f"(K {coq_ob(kon)} {coq_ob(kba)} {coq_ns(call)}), (Some {coq_tree_value(observed, enc)}), {coq_bool(in_domain)})")
-            ninfo.append(rep)
-            rep["_ok"] = typed(observed) == typed(expected)
-            rep["_kf_zone"] = bool(hits)
-            if typed(observed) != typed(expected):
-                kind = "nested-projection-mismatch"
-                if hits:
-                    h2: dict = {}
-                    predicted = walk(table, ns, t, inst, plain, (0,), all_flags, avail, "kf", h2)
-                    if typed(predicted) == typed(observed):
-                        kind = "union-member-flags" if hits.get("d8b") else "call-dialect-vs-flag-defaults"
-                ctx.fail(f"nested to_dict({kwargs_src(ro)}) = {observed!r}, hereditary projection of the plain output is {expected!r}"[:400],
-                         rep, {"kind": kind, "entry": "nested"})
-            ctx.hist("form", "nested-kf-zone" if hits else "nested-in-domain")
+        for rid in roots[:3]:
+            root = table[rid]
+            for _ in range(2 if rid == 0 else 1):
+                kon = rng.choice([None, True, False]) if root.o.fon else None
+                kba = rng.choice([None, True, False]) if root.o.fba else None
+                rcall = call if root.o.fdl else None
+                ro = replace(root.o, kon=kon, kba=kba, call=rcall)
+                t = gen_tree(rng, table, rid)
+                rep = {"kind_of_case": "nested", "source": src, "cls": f"C{rid}", "twin": f"P{rid}",
+                       "instance": tree_src(table, t, "C"), "twin_instance": tree_src(table, t, "P"), "entry": "to_dict",
+                       "kwargs": kwargs_src(ro), "default_dialect": None}
+                inst = eval(rep["instance"], ns)
+                twin = eval(rep["twin_instance"], ns)
+                try:
+                    plain = twin.to_dict()
+                except Exception as ex:
+                    rep["expected"] = "a mapping"
+                    ctx.fail(f"nested: the option-free twin raised {type(ex).__name__}: {ex}"[:300], rep,
+                             {"kind": "plain-raised-" + type(ex).__name__, "entry": "nested"})
+                    continue
+                hits: dict = {}
+                avail = (kon, kba, rcall)
+                expected = walk(table, ns, t, inst, plain, (rid,), all_flags, avail, "spec", hits)
+                rep["expected"] = repr(expected)
+                rep["plain"] = repr(plain)
+                ctx.count(("nested", repr(table), tuple(order), rid, repr(t), kon, kba, rcall))
+                ctx.hist("entry", "nested")
+                ctx.hist("nested_classes", str(len(table)))
+                ctx.hist("nested_root", "class0" if rid == 0 else "inner-mixin-as-root")
+                for c in table[1:]:
+                    ctx.hist("nested_kind", "mixin" if c.mixin else ("plain+Config" if c.o != Opts() else "plain"))
+                try:
+                    observed = inst.to_dict(**call_kwargs(ro, ns))
+                except Exception as ex:
+                    rep["observed"] = f"{type(ex).__name__}: {ex}"
+                    kind = "raised-" + type(ex).__name__
+                    if lazy_dialect_plain_zone(table, rid, rcall) and type(ex).__name__ in ("AttributeError", "InvalidFieldValue"):
+                        # the listed finding is a FIRST-call failure (inside a Union member it is swallowed and
+                        # resurfaces as InvalidFieldValue): it must disappear after one dialect-less call
+                        try:
+                            inst.to_dict()
+                            again = inst.to_dict(**call_kwargs(ro, ns))
+                            if isinstance(again, dict):
+                                kind = "lazy-dialect-uncompiled-plain-nested"
+                        except Exception:
+                            pass
+                    ctx.fail(f"nested {rep['instance']}.to_dict({kwargs_src(ro)}) raised {type(ex).__name__}: {ex}"[:400], rep,
+                             {"kind": kind, "entry": "nested"})
+                    continue
+                rep["observed"] = repr(observed)
+                enc = PvEnc()
+                in_domain = not hits
+                ncases.append(f"({coq_table(table, ns, enc)}, ({rid}%nat, {coq_node(table, t, inst, plain, enc)}), "
+                              f"(K {coq_ob(kon)} {coq_ob(kba)} {coq_ns(rcall)}), (Some {coq_tree_value(observed, enc)}), {coq_bool(in_domain)})")
+                ninfo.append(rep)
+                rep["_ok"] = typed(observed) == typed(expected)
+                rep["_kf_zone"] = bool(hits)
+                if typed(observed) != typed(expected):
+                    kind = "nested-projection-mismatch"
+                    if hits:
+                        h2: dict = {}
+                        predicted = walk(table, ns, t, inst, plain, (rid,), all_flags, avail, "kf", h2)
+                        if typed(predicted) == typed(observed):
+                            kind = "union-member-flags" if hits.get("d8b") else "call-dialect-vs-flag-defaults"
+                    ctx.fail(f"nested {rep['instance']}.to_dict({kwargs_src(ro)}) = {observed!r}, hereditary projection of the plain "
+                             f"output is {expected!r}"[:500], rep, {"kind": kind, "entry": "nested"})
+                ctx.hist("form", "nested-kf-zone" if hits else "nested-in-domain")
         unload(ns)
 
 
@@ -970,18 +1075,26 @@ def run(ctx: vlib.Ctx):
         "(call dialect, Config.dialect, Config in {unset,F,T}^3 each, default dialect via BasicEncoder, sort_keys, lazy, "
         "4 code generation flags, keyword arguments) x values (None / the default / ==-equal of another type / other); "
         "lattice: fixed 6-field family x every (call, Config.dialect, Config) namespace triple (thorough: all 21168, "
-        "quick: slice); nested: class tables of 2-4 mixin classes with independent option vectors and flags, direct / "
-        "Optional / Union[...] dataclass fields, random instance trees, root keyword arguments. "
+        "quick: slice); nested: class tables of 2-5 classes (mixin subclasses, plain dataclasses with a Config, plain "
+        "dataclasses without Config) with independent option vectors (Config, Config.dialect, flags, lazy) defined in a "
+        "random dependency-respecting order, direct / Optional / Union[...] / List[...] dataclass fields, EVERY mixin "
+        "class used as root in random call order (a shared plain class meets its first builder through different "
+        "owners), random instance trees, root keyword arguments incl. call dialect; the nested part of every output is "
+        "compared with the nested class's own projection (own plain serialization when it set nothing). "
         "distinct = (schema shape, option vector, values)")
     ctx.trusted += [
         "OptProj.v: hand-written model of the generated to_dict body (kwargs-vs-literal form, nullable / omit_default / "
         "by_alias / omit_none branches, default-method -> dialect-method dispatch with forwarded keyword defaults), "
         "parametric in the packed value of each non-dataclass field; compared with real classes on every generated "
         "case: list(to_dict(**kw).items()) == dict_of(model), type-sensitive, TypeError <-> None",
-        "OptNested.v: nested dataclasses and unions of dataclasses on the mixin path (dynamic dispatch, flags = K8 both, "
-        "pack_union first accepting member); compared with real class tables of 2-4 classes",
+        "OptNested.v: nested dataclasses (mixin or plain, own Config or none), List[...] and unions of dataclasses under a "
+        "mixin root (dynamic dispatch, flags = K8 both, pack_union first accepting member, default dialect handed down to "
+        "a plain class = K14 pass_dd); the model has no compile state: that the first compiling owner does not matter is "
+        "a consequence of K14 and is exercised by the harness (definition order, root order, lazy owners)",
         "pv: Python values seen by the body are None/bool/int/float/NaN/str/opaque; equality of opaque objects is "
         "decided by the harness ((type, repr) classes of date/list/tuple values)",
+        "tools/kernels/k9_nested_builder.py: builder attributes abstracted as namespaces, statements before the nested "
+        "builder call translated with it",
         "tools/kernels/k8_packflags.py: is_code_generation_option_enabled abstracted as a namespace lookup (source "
         "text of the method is checked), pass_encoder=False slice of get_pack_method_flags; K3 abstraction of "
         "self.dialect / Config.dialect / Config / default_dialect as four namespaces (tools/gen_kernels.py)",
@@ -994,7 +1107,10 @@ def run(ctx: vlib.Ctx):
         "value equals default: Python == on the attribute value; a NaN default is matched by NaN",
         "excluded corners, each proved refuted in Coq and listed as a known finding: call dialect vs forwarded keyword "
         "defaults (flag_defaults_ok), math.isnan on a non-number (nan_ok), union member flags (ok_h: flags_eqb)",
-        "nested: mixin classes only (codec path forwards no flags); dataclass-typed fields have no default other than None",
+        "nested: mixin roots (codec path forwards no flags and hands its default dialect to every class by design); "
+        "dataclass-typed fields have no default other than None / default_factory=list",
+        "excluded corner listed as known finding (no Coq model of compile state): lazy_compilation + ADD_DIALECT_SUPPORT "
+        "owner whose first call passes a dialect and reaches a not yet compiled plain dataclass (AttributeError)",
         "hooks, context values, format encoders (to_json ...) and lazy compilation do not change the mapping: exercised "
         "by the oracle (lazy, context flag), not part of the model",
     ]
@@ -1002,15 +1118,17 @@ def run(ctx: vlib.Ctx):
            "C08_spec_sorted", "C08_spec_values"]
     ctx.theorems("props/C08_kernel_K3.vo", ["K3_order", "K3_look"], kernels=["K3"])
     ctx.theorems("props/C08_kernel_K8.vo", ["K8_forward", "K8_use_kwargs"], kernels=["K8"])
+    ctx.theorems("props/C08_kernel_K14.vo", ["K14_passdown", "K14_pass_dd"], kernels=["K14"])
     ctx.theorems("props/C08_project.vo", thm)
-    ctx.theorems("props/C08_nested.vo", ["C08_nested_partial", "C08_union_flags_refuted", "C08_forwarded_exactly", "C08_no_leak"])
+    ctx.theorems("props/C08_nested.vo", ["C08_nested_partial", "C08_union_flags_refuted", "C08_forwarded_exactly", "C08_no_leak",
+                                            "C08_option_free_is_plain"])
 
     if not ctx.quick():
         # second opinion: the independent checker on the compiled property files
         with vlib.Lock("build"):
             rc, out, _ = vlib.run(["timeout", "600", "coqchk", "-silent", "-o", "-Q", "theories", "Verif", "-Q", "gen", "VerifGen",
                                    "-Q", "props", "VerifProps", "VerifProps.C08_project", "VerifProps.C08_nested",
-                                   "VerifProps.C08_kernel_K3", "VerifProps.C08_kernel_K8"], cwd=vlib.COQ, timeout=640)
+                                   "VerifProps.C08_kernel_K3", "VerifProps.C08_kernel_K8", "VerifProps.C08_kernel_K14"], cwd=vlib.COQ, timeout=640)
         ok = rc == 0 and "Axioms: <none>" in out
         ctx.obligation("coqchk -o (C08_project, C08_nested, C08_kernel_K3, C08_kernel_K8): no axioms", ok, out[-600:])
         if not ok:
@@ -1051,7 +1169,7 @@ def run(ctx: vlib.Ctx):
 
     name = "nested-model-vs-generated-code"
     bad, log = vlib.coq_bad_idx("c08_nested", "OptProj OptNested", "", NESTED_DEFS, ncases, "ncase_ok",
-                                "list cls * node * kwv * option pv * bool", shard=300,
+                                "list cls * (nat * node) * kwv * option pv * bool", shard=300,
                                 needs=["theories/OptNested.vo"])
     if bad is None:
         ctx.correspondence(name, len(ncases), -1, log)
